@@ -7,8 +7,12 @@ Tie     : extracted lock discipline / growth / retirement facts (tools/extractor
           every execution of the real ThreadPool under the deterministic scheduler (harness/sched.py) is replayed action
           by action by the model and the projections must agree after every step.
 Monitor : harness/poolcommon.py (written from the property statement): at most one execution per task, own arguments,
-          future identity, nothing begins between the return of stop() and the next start(), FIFO with one worker,
-          no task lost at the end of a run, exactly once in programs that drain.
+          future identity, nothing begins between the return of stop() and the next start() and no worker is left able to
+          take a task when stop() returns, FIFO with one worker, no task lost at the end of a run, exactly once in
+          programs that drain; enqueue(non-callable) raises the documented ValueError.
+Inputs  : tasks presented as named callables, bare callable instances and functools.partial objects (no __name__),
+          returning truthy / falsy-but-not-None / None objects or raising exceptions with empty args / falsy exception
+          objects, called with tuples, with nothing or with falsy arguments (poolcommon.gen_variant).
 """
 import poolcommon as pc
 
@@ -17,18 +21,20 @@ REQUIRED_THEOREMS = [
     "C09_future_faithful", "C09_result_faithful", "C09_none_after_stop", "C09_fifo_single", "C09_single_worker",
     "C09_queued_has_server", "C09_eventually_once", "C09_eventually_begins",
     "C09_gen_poolUnlockedAccesses", "C09_gen_poolPendingStores", "C09_gen_poolGrowthRule", "C09_gen_poolRetireRule",
+    "C09_gen_poolRunHandlerSafe", "C09_gen_poolStartRollback",
 ]
 
-MIX = [(3, "L1", None), (2, "L2", None), (2, "G", None), (1, "W", None), (1, "GR", None), (1, "L1", (1, 1)), (1, "L2", (1, 0))]
+MIX = [(3, "L1", None), (2, "L2", None), (2, "G", None), (1, "W", None), (1, "GR", None), (1, "L1", (1, 1)), (1, "L2", (1, 0)),
+       (2, "S", None), (1, "F", None), (1, "N", None)]
 
 
 def run(ctx):
-    pc.check(ctx, "C09", MIX, 450, 9000)
+    pc.check(ctx, "C09", MIX, 400, 9000)
 
 
 def search(ctx):
     """Tie broken and no monitor hit yet: one bounded search for a failing input (no lockstep)."""
-    pc.check(ctx, "C09", MIX, 450, 3000)
+    pc.check(ctx, "C09", MIX, 450, 1500)
 
 
 def replay(payload):
